@@ -306,3 +306,74 @@ def c05(ctx):
     design = [("Quorum", "Quorum.cfg", {})]
     return det_run(ctx, "reg", "TestC05", "c05.ndjson", "c05.summary.json", "QuorumTrace", "QuorumTrace.cfg",
                    {"VERIF_FRACTION": 34 if quick else 100}, design, rule, "quorum enforcement", tags_of=c05_tags)
+
+
+# ------------------------------------------------------------------ pub/sub
+def ps_nontrivial(trace_path):
+    """Counts the programs in which some publish had >= 1 delivery while >= 1 live subscription did
+    not match (C14's non-triviality rule), simulating the subscription set from the trace."""
+    match = {("a*", "a"), ("a*", "ab"), ("*", "a"), ("*", "ab"), ("*", "b"), ("*", "bc"), ("b?", "bc")}
+    n, subs, hit = 0, set(), False
+    for l in open(trace_path):
+        e = json.loads(l)
+        t = e.get("t")
+        if t == "reset":
+            n += 1 if hit else 0
+            subs, hit = set(), False
+        elif t == "sub":
+            subs.add((e["c"], e["pat"], e["name"]))
+        elif t == "unsub":
+            subs.discard((e["c"], e["pat"], e["name"]))
+        elif t == "unsuball":
+            subs = {s for s in subs if not (s[0] == e["c"] and s[1] == e["pat"])}
+        elif t == "disc":
+            subs = {s for s in subs if s[0] != e["c"]}
+        elif t == "pub":
+            m = [s for s in subs if (not s[1] and s[2] == e["ch"]) or (s[1] and (s[2], e["ch"]) in match)]
+            if m and len(m) < len(subs):
+                hit = True
+    return n + (1 if hit else 0)
+
+
+@register("C14")
+def c14(ctx):
+    quick = ctx.tier == "quick"
+    ctx.assumptions += ["PUBLISH returns after every delivery was written and deliveries to one connection are ordered, so a barrier message "
+                        "proves that nothing else was delivered (no time-outs involved)",
+                        "a connection holding a channel subscription and a matching pattern is served once per subscription"]
+    rule = ("operation paths exported by TLC from PubSub.tla (one per distinct subscription state with <= %d operations over 3 connections on 2 members, "
+            "channels {a,ab,b}, patterns {a*,*}; plus every path of length <= %d) each followed by PUBLISH on every channel and PUBSUB CHANNELS/NUMSUB/NUMPAT; "
+            "seeded random programs with duplicate subscriptions, unsubscribe-all and disconnects; rounds with two concurrent publishers; "
+            "non-trivial = some publish had >= 1 delivery while >= 1 live subscription did not match") % ((3, 2) if quick else (4, 3))
+    ra = vlib.design_check(ctx, "PubSubMC", "PubSub.cfg", consts={"MaxOps": 3 if quick else 4, "Export": "TRUE"}, name="design-states")
+    behs = set(vlib.behaviours(ra))
+    # every path up to a length (no VIEW: distinct paths are distinct states)
+    cfgtxt = open(os.path.join(vlib.SPEC, "PubSub.cfg")).read().replace("VIEW view\n", "")
+    open(os.path.join(vlib.SPEC, ".PubSub_paths.cfg"), "w").write(cfgtxt)
+    try:
+        rb = vlib.design_check(ctx, "PubSubMC", ".PubSub_paths.cfg", consts={"MaxOps": 2 if quick else 3, "Export": "TRUE"}, name="design-paths")
+    finally:
+        os.remove(os.path.join(vlib.SPEC, ".PubSub_paths.cfg"))
+    behs |= set(vlib.behaviours(rb))
+    out = ctx.dir("drv")
+    behfile = os.path.join(out, "beh.jsonl")
+    open(behfile, "w").write("\n".join(sorted(behs)) + "\n")
+    rc, o = vlib.go_test(ctx, "ps", "TestPubSub", env={"VERIF_OUT": out, "VERIF_BEH": behfile, "VERIF_PS_RANDOM": 40 if quick else 600,
+                                                        "VERIF_PS_RANDOM_LEN": 30 if quick else 40, "VERIF_PS_CONC": 5 if quick else 60}, timeout=1500)
+    if crash_or_fail(ctx, rc, o, "driving pub/sub"):
+        return vlib.finish(ctx, {"evaluations": 0, "distinct_nontrivial": 0, "rule": rule, "samples": ["crash"]})
+    summ = json.load(open(os.path.join(out, "ps.summary.json")))
+    tr = os.path.join(out, "ps.ndjson")
+    accepted, failures = vlib.validate_chunks(ctx, "PubSubTrace", "PubSubTrace.cfg", tr, consts={}, name="ps")
+    ctx.traces = accepted
+    for seq_lines, line, msg in failures:
+        head = json.loads(seq_lines[0])
+        evs = [json.loads(l) for l in seq_lines[1:line]]
+        last = evs[-1] if evs else {}
+        vlib.report_failure(ctx, "pub/sub: %s (program %s, line %d)" % (msg, head.get("seq"), line),
+                            {"kind": "pubsub", "msg": msg, "event": last.get("t", "")},
+                            {"reset": head, "events_up_to_failure": evs[-15:]})
+    cov = {"evaluations": summ["evaluations"], "programs": summ["programs"], "programs_from_tlc": summ["from_tlc"],
+           "concurrent_rounds": summ["concurrent_rounds"], "distinct_nontrivial": ps_nontrivial(tr), "rule": rule,
+           "samples": summ["samples"] or [{"note": "no short sample"}], "exhaustive": False}
+    return vlib.finish(ctx, cov)
